@@ -69,7 +69,7 @@ def _work(args):
     classes = set()
     with open(path, 'w') as fh:
         for tid, walk in items:
-            lines, drift, n, covered = R.replay_walk(g, walk, tid, job['wcfg'], job['cfgline'])
+            lines, drift, n, covered = R.replay_walk(g, walk, tid, job['wcfg'], job['cfgline'], coop=job.get('coop', False))
             for ln in lines:
                 fh.write(R.dumps(ln) + '\n')
             steps += n
@@ -87,9 +87,9 @@ def _work(args):
     return path, drifts, steps, cov, len(classes)
 
 
-def replay_walks(g, walks, wcfg, cfgline, outdir, procs=16, tid0=0):
+def replay_walks(g, walks, wcfg, cfgline, outdir, procs=16, tid0=0, coop=False):
     global _G, _JOB
-    _G, _JOB = g, {'wcfg': wcfg, 'cfgline': cfgline}
+    _G, _JOB = g, {'wcfg': wcfg, 'cfgline': cfgline, 'coop': coop}
     items = [(tid0 + i, w) for i, w in enumerate(walks)]
     nchunks = max(1, min(len(items), procs * 4))
     chunks = [items[i::nchunks] for i in range(nchunks)]
@@ -160,7 +160,7 @@ def run_config(name, c, constraint, tier, seed, props, workdir, wextra=None, per
     t0 = time.perf_counter()
     sub = os.path.join(workdir, name)
     os.makedirs(sub, exist_ok=True)
-    parts, drifts, steps, cov = replay_walks(g, walks, wcfg, cl, sub)
+    parts, drifts, steps, cov = replay_walks(g, walks, wcfg, cl, sub, coop=('C02' in props))
     nd = os.path.join(workdir, name + '.ndjson')
     with open(nd, 'w') as out:
         for p in parts:
